@@ -3,6 +3,8 @@ S = "src/psyclone/psyir/nodes/scoping_node.py"
 T = "src/psyclone/psyir/symbols/symbol_table.py"
 N = "src/psyclone/psyir/nodes/node.py"
 A = "src/psyclone/psyir/nodes/acc_directives.py"
+ST = "src/psyclone/psyir/symbols/symbol_table.py"
+SC = "src/psyclone/psyir/nodes/scoping_node.py"
 VARIANTS = [
     SV("loop-variable-not-rebound", S, "ScopingNode._refine_copy",
        "if isinstance(node, Loop) and node._variable:\n    if node.variable in other.symbol_table.symbols:\n        node.variable = self.symbol_table.lookup(node.variable.name)",
@@ -22,4 +24,18 @@ VARIANTS = [
       "        self._variable = None\n        self._notes = []\n", "silent"),
     V("new-symbol-field", "src/psyclone/psyir/nodes/assignment.py", "class Assignment(Statement):",
       "class Assignment(Statement):\n    def set_owner(self, owner):\n        '''\n        :param owner: the owner.\n        :type owner: :py:class:`psyclone.psyir.symbols.DataSymbol`\n        '''\n        self._owner = owner\n", "fires:C15.R2"),
+    V("deep-copy-early-return-for-empty-table", ST,
+      "        new_st = type(self)()\n\n        # Make a copy of each symbol",
+      "        new_st = type(self)()\n        if not self._symbols:\n            return new_st\n\n        # Make a copy of each symbol",
+      "fires:C15.R2"),
+    V("rebinding-by-raw-name-key", SC,
+      "                if node.symbol in other.symbol_table.symbols:",
+      "                if other.symbol_table.symbols_dict.get(node.symbol.name) is node.symbol:",
+      "fires:C15.R2"),
+    V("membership-list-hoisted", SC,
+      "        for node in self.walk((Reference, Loop)):\n            if isinstance(node, Reference):\n                if node.symbol in other.symbol_table.symbols:",
+      "        orig = other.symbol_table.symbols\n        for node in self.walk((Reference, Loop)):\n            if isinstance(node, Reference):\n                if node.symbol in orig:",
+      "silent"),
+    V("new-table-field-not-copied", ST, "        self._argument_list = []\n",
+      "        self._argument_list = []\n        self._pinned = set()\n", "fires:C15.R2"),
 ]
